@@ -212,6 +212,7 @@ type storeGenOpts struct {
 	noSeparator bool // label values without whitespace or separators
 	utf8Only    bool // no invalid UTF-8 in label or text values (JSON cannot carry them)
 	maxMetrics  int
+	unsortedBuckets bool // histogram ranges sometimes in another order than ascending
 }
 
 func genStore(r *rng, o storeGenOpts) []sMetric {
@@ -278,7 +279,8 @@ func genStore(r *rng, o storeGenOpts) []sMetric {
 		seenL := map[string]bool{}
 		var ranges []datum.Range
 		if m.kind == metrics.Histogram {
-			bounds := [][]float64{{1, 2}, {0.5, 1, 4}, {-1, 0, 1}, {0, 10}}[r.intn(4)]
+			bounds := [][]float64{{1, 2}, {0.5, 1, 4}, {-1, 0, 1}, {0, 10},
+				{1, 2, 3, 4, 5, 6, 7, 8, 9, 10, 11, 12, 13, 14, 15, 16, 17, 18, 19, 20}}[r.intn(5)]
 			if bounds[0] > 0 {
 				ranges = append(ranges, datum.Range{Min: 0, Max: bounds[0]})
 			}
@@ -288,6 +290,13 @@ func genStore(r *rng, o storeGenOpts) []sMetric {
 				mn = mx
 			}
 			ranges = append(ranges, datum.Range{Min: mn, Max: math.Inf(1)})
+			if o.unsortedBuckets && r.chance(1, 4) {
+				// a store built by hand need not list its buckets in ascending order
+				for q := len(ranges) - 1; q > 0; q-- {
+					w := r.intn(q + 1)
+					ranges[q], ranges[w] = ranges[w], ranges[q]
+				}
+			}
 		}
 		for j := 0; j < nl; j++ {
 			labels := make([]string, nk)
